@@ -869,6 +869,28 @@ theorem floorFrom_pres (hP : NotifyStable P o) (ts : List Typ) (w : World) (g : 
   | nil => exact h
   | cons t ts ih => exact ih _ (floorOne_pres P o hP w g fb t h)
 
+theorem inheritPairs_pres (hP : NotifyStable P o) (ps : List (Nat × Nat)) : ∀ w : World, SetsAll P w →
+    SetsAll P (inheritPairs ps w o).1 := by
+  induction ps with
+  | nil => intro w h; exact h
+  | cons p ps ih => intro w h; exact ih _ (restoreFrom_pres P o hP _ w p.1 _ h)
+
+theorem restoreGroups_pres (hP : NotifyStable P o) (gs : List ReloadGroup) : ∀ w : World, SetsAll P w →
+    SetsAll P (restoreGroups gs w o).1 := by
+  induction gs with
+  | nil => intro w h; exact h
+  | cons G gs ih => intro w h; exact ih _ (inheritPairs_pres P o hP G.pairs w h)
+
+theorem floorGroups_pres (hP : NotifyStable P o) (gs : List ReloadGroup) : ∀ w : World, SetsAll P w →
+    SetsAll P (floorGroups gs w o).1 := by
+  induction gs with
+  | nil => intro w h; exact h
+  | cons G gs ih => intro w h; exact ih _ (floorFrom_pres P o hP _ w G.g G.fb h)
+
+theorem reload_pres (hP : NotifyStable P o) (w : World) (gs : List ReloadGroup) (h : SetsAll P w) :
+    SetsAll P (reload w gs o).1 :=
+  floorGroups_pres P o hP gs _ (restoreGroups_pres P o hP gs w h)
+
 end pres
 
 
@@ -959,6 +981,7 @@ theorem step_good (w : World) (e : Event) (h : SetsAll GoodSet w) : SetsAll Good
   | inherit n m o => exact restoreFrom_pres GoodSet o (goodSet_stable o) _ w n _ h
   | restore n s o => exact restoreFrom_pres GoodSet o (goodSet_stable o) _ w n s h
   | floor g fb o => exact floorFrom_pres GoodSet o (goodSet_stable o) _ w g fb h
+  | reload gs o => exact reload_pres GoodSet o (goodSet_stable o) w gs h
 
 theorem run_good (es : List Event) : ∀ (w : World), SetsAll GoodSet w → SetsAll GoodSet (run w es).1 := by
   induction es with
@@ -1302,6 +1325,36 @@ theorem markUnavail_agree (w : World) (n : Nat) (t : Typ) (tr : Bool) (hnd : Set
     · apply notifyAll_agree _ n t.idx _ o Ex _ _ hnd1 h1
       simp
 
+theorem inheritPairs_agree (ps : List (Nat × Nat)) : ∀ w : World, SetsAll NodupSet w → AgreeW w Ex →
+    SetsAll NodupSet (inheritPairs ps w o).1 ∧ AgreeW (inheritPairs ps w o).1 Ex := by
+  induction ps with
+  | nil => intro w h1 h2; exact ⟨h1, h2⟩
+  | cons p ps ih =>
+    intro w hnd h
+    exact ih _ (restoreFrom_pres NodupSet o (nodupSet_stable o) _ w p.1 _ hnd) (restoreFrom_agree o Ex _ p.1 _ w hnd h)
+
+theorem restoreGroups_agree (gs : List ReloadGroup) : ∀ w : World, SetsAll NodupSet w → AgreeW w Ex →
+    SetsAll NodupSet (restoreGroups gs w o).1 ∧ AgreeW (restoreGroups gs w o).1 Ex := by
+  induction gs with
+  | nil => intro w h1 h2; exact ⟨h1, h2⟩
+  | cons G gs ih =>
+    intro w hnd h
+    obtain ⟨a, b⟩ := inheritPairs_agree o Ex G.pairs w hnd h
+    exact ih _ a b
+
+theorem floorGroups_agree (gs : List ReloadGroup) : ∀ w : World, SetsAll NodupSet w → AgreeW w Ex →
+    SetsAll NodupSet (floorGroups gs w o).1 ∧ AgreeW (floorGroups gs w o).1 Ex := by
+  induction gs with
+  | nil => intro w h1 h2; exact ⟨h1, h2⟩
+  | cons G gs ih =>
+    intro w hnd h
+    exact ih _ (floorFrom_pres NodupSet o (nodupSet_stable o) _ w G.g G.fb hnd) (floorFrom_agree o Ex _ G.g G.fb w hnd h)
+
+theorem reload_agree (w : World) (gs : List ReloadGroup) (hnd : SetsAll NodupSet w) (h : AgreeW w Ex) :
+    SetsAll NodupSet (reload w gs o).1 ∧ AgreeW (reload w gs o).1 Ex := by
+  obtain ⟨a, b⟩ := restoreGroups_agree o Ex gs w hnd h
+  exact floorGroups_agree o Ex gs _ a b
+
 end agree
 
 
@@ -1476,6 +1529,7 @@ theorem step_inv (w : World) (e : Event) (h : Inv w) : Inv (step w e).1 := by
     exact ⟨restoreFrom_pres NodupSet o (nodupSet_stable o) _ w n s hnd, restoreFrom_agree o _ _ n s w hnd hag⟩
   | floor g fb o =>
     exact ⟨floorFrom_pres NodupSet o (nodupSet_stable o) _ w g fb hnd, floorFrom_agree o _ _ g fb w hnd hag⟩
+  | reload gs o => exact reload_agree o _ w gs hnd hag
 
 theorem run_inv (es : List Event) : ∀ w : World, Inv w → Inv (run w es).1 := by
   induction es with
@@ -1738,6 +1792,42 @@ theorem markUnavail_edges (n i : Nat) (w : World) (m : Nat) (t : Typ) (tr : Bool
         rw [recordFailure_nodes]
     · exact edgesAt_trans n i _ _ _ _ _ (edgesAt_silent n i _ _ _ rfl rfl) (E3 _)
 
+theorem restore_edges (n i : Nat) (w : World) (m : Nat) (s : Snapshot) (o : Oracle) :
+    EdgesAt n i w.nodes (restore w m s o).1.nodes (restore w m s o).2 :=
+  restoreFrom_edges n i _ (by intro j hj; simp at hj; omega) m s o w
+
+theorem inheritPairs_edges (n i : Nat) (o : Oracle) (ps : List (Nat × Nat)) : ∀ w : World,
+    EdgesAt n i w.nodes (inheritPairs ps w o).1.nodes (inheritPairs ps w o).2 := by
+  induction ps with
+  | nil => intro w; exact edgesAt_silent n i _ _ _ rfl rfl
+  | cons p ps ih =>
+    intro w
+    simp only [inheritPairs]
+    exact edgesAt_trans n i _ _ _ _ _ (restore_edges n i w p.1 _ o) (ih _)
+
+theorem restoreGroups_edges (n i : Nat) (o : Oracle) (gs : List ReloadGroup) : ∀ w : World,
+    EdgesAt n i w.nodes (restoreGroups gs w o).1.nodes (restoreGroups gs w o).2 := by
+  induction gs with
+  | nil => intro w; exact edgesAt_silent n i _ _ _ rfl rfl
+  | cons G gs ih =>
+    intro w
+    simp only [restoreGroups]
+    exact edgesAt_trans n i _ _ _ _ _ (inheritPairs_edges n i o G.pairs w) (ih _)
+
+theorem floorGroups_edges (n i : Nat) (o : Oracle) (gs : List ReloadGroup) : ∀ w : World,
+    EdgesAt n i w.nodes (floorGroups gs w o).1.nodes (floorGroups gs w o).2 := by
+  induction gs with
+  | nil => intro w; exact edgesAt_silent n i _ _ _ rfl rfl
+  | cons G gs ih =>
+    intro w
+    simp only [floorGroups]
+    exact edgesAt_trans n i _ _ _ _ _ (floorFrom_edges n i _ G.g G.fb o w) (ih _)
+
+theorem reload_edges (n i : Nat) (o : Oracle) (gs : List ReloadGroup) (w : World) :
+    EdgesAt n i w.nodes (reload w gs o).1.nodes (reload w gs o).2 := by
+  simp only [reload]
+  exact edgesAt_trans n i _ _ _ _ _ (restoreGroups_edges n i o gs w) (floorGroups_edges n i o gs _)
+
 theorem step_edges (n i : Nat) (w : World) (e : Event) (hne : ∀ a, e ≠ .node n a) :
     EdgesAt n i w.nodes (step w e).1.nodes (step w e).2 := by
   cases e with
@@ -1799,6 +1889,7 @@ theorem step_edges (n i : Nat) (w : World) (e : Event) (hne : ∀ a, e ≠ .node
   | inherit m k o => exact restoreFrom_edges n i _ (by intro j hj; simp at hj; omega) m _ o w
   | restore m s o => exact restoreFrom_edges n i _ (by intro j hj; simp at hj; omega) m s o w
   | floor g fb o => exact floorFrom_edges n i _ g fb o w
+  | reload gs o => exact reload_edges n i o gs w
 
 theorem run_edges (n i : Nat) (es : List Event) : ∀ w : World, (∀ e ∈ es, ∀ a, e ≠ .node n a) →
     EdgesAt n i w.nodes (run w es).1.nodes (run w es).2 := by
@@ -2057,6 +2148,38 @@ theorem floorFrom_slot (ts : List Typ) (g : Nat) (fb : Nat → Option Nat) (o : 
     exact slotUZ_trans (floorOne_slot w g fb o t n i) (ih _)
 
 
+theorem inheritPairs_slot (o : Oracle) (n i : Nat) (ps : List (Nat × Nat)) : ∀ w : World,
+    SlotU (w.nodes n) ((inheritPairs ps w o).1.nodes n) i ∨ SlotZ ((inheritPairs ps w o).1.nodes n) i := by
+  induction ps with
+  | nil => intro w; left; exact slotU_refl _ i
+  | cons p ps ih =>
+    intro w
+    simp only [inheritPairs]
+    exact slotUZ_trans (restore_slot w p.1 _ o (fun _ => ⟨rfl, rfl⟩) n i) (ih _)
+
+theorem restoreGroups_slot (o : Oracle) (n i : Nat) (gs : List ReloadGroup) : ∀ w : World,
+    SlotU (w.nodes n) ((restoreGroups gs w o).1.nodes n) i ∨ SlotZ ((restoreGroups gs w o).1.nodes n) i := by
+  induction gs with
+  | nil => intro w; left; exact slotU_refl _ i
+  | cons G gs ih =>
+    intro w
+    simp only [restoreGroups]
+    exact slotUZ_trans (inheritPairs_slot o n i G.pairs w) (ih _)
+
+theorem floorGroups_slot (o : Oracle) (n i : Nat) (gs : List ReloadGroup) : ∀ w : World,
+    SlotU (w.nodes n) ((floorGroups gs w o).1.nodes n) i ∨ SlotZ ((floorGroups gs w o).1.nodes n) i := by
+  induction gs with
+  | nil => intro w; left; exact slotU_refl _ i
+  | cons G gs ih =>
+    intro w
+    simp only [floorGroups]
+    exact slotUZ_trans (floorFrom_slot standardTyps G.g G.fb o n i w) (ih _)
+
+theorem reload_slot (o : Oracle) (n i : Nat) (gs : List ReloadGroup) (w : World) :
+    SlotU (w.nodes n) ((reload w gs o).1.nodes n) i ∨ SlotZ ((reload w gs o).1.nodes n) i := by
+  simp only [reload]
+  exact slotUZ_trans (restoreGroups_slot o n i gs w) (floorGroups_slot o n i gs _)
+
 theorem countInv_counted (tr tr' : Bool) (n i : Nat) (w w' : World) (t : Typ) (acc : Nat) (hi : t.idx = i)
     (h : CountInv tr n i w acc) (hu : SlotU ((w.nodes n).counted t tr') (w'.nodes n) i) :
     CountInv tr n i w' (if tr = tr' then acc + 1 else acc) := by
@@ -2197,6 +2320,11 @@ theorem countInv_step (tr : Bool) (n i : Nat) (w : World) (e : Event) (acc : Nat
     rcases floorFrom_slot standardTyps g fb o n i w with h1 | h1
     · exact countInv_U tr n i w _ acc h h1
     · exact countInv_Z tr n i _ _ h1
+  | reload gs o =>
+    simp only [step, touch, Touch.next]
+    rcases reload_slot o n i gs w with h1 | h1
+    · exact countInv_U tr n i w _ acc h h1
+    · exact countInv_Z tr n i _ _ h1
 
 /-- along any sane history the real counter of an alive slot is bounded by the streak -/
 theorem countInv_run (tr : Bool) (n i : Nat) (es : List Event) : ∀ (w : World) (acc : Nat),
@@ -2227,6 +2355,7 @@ inductive ForcedCause (w : World) (n i : Nat) : Event → Prop
   | restore (s : Snapshot) (o : Oracle) : ForcedCause w n i (.restore n s o)
   | inherit (m : Nat) (o : Oracle) : ForcedCause w n i (.inherit n m o)
   | escalation (e : Event) : Out.escalate n ∈ (step w e).2 → ForcedCause w n i e
+  | reload (gs : List ReloadGroup) (o : Oracle) : (∃ G ∈ gs, ∃ p ∈ G.pairs, p.1 = n) → ForcedCause w n i (.reload gs o)
 
 theorem escalates_out (w : World) (m : Nat) (t : Typ) (tr : Bool) (o : Oracle) (hs : w.suppressed = false)
     (he : escalates w m t tr = true) : Out.escalate m ∈ (markUnavail w m t tr o).2 := by
@@ -2310,6 +2439,40 @@ theorem trafficOk_alive_mono (w : World) (m : Nat) (t : Typ) (o : Oracle) (n i :
     · rw [upd_same]; exact avail_alive_mono _ t i (by simpa using h)
     · rw [upd_same]; simpa using h
   · split <;> (rw [upd_other _ _ _ _ (Ne.symm hm)]; exact h)
+
+theorem restore_nodes_other (w : World) (m : Nat) (s : Snapshot) (o : Oracle) (n : Nat) (h : n ≠ m) :
+    (restore w m s o).1.nodes n = w.nodes n := by
+  simp only [restore, restoreFrom_nodes, upd_other _ _ _ _ h]
+
+theorem inheritPairs_alive_mono (o : Oracle) (n i : Nat) (ps : List (Nat × Nat)) : ∀ w : World,
+    (∀ p ∈ ps, p.1 ≠ n) → (w.nodes n).alive i = true → ((inheritPairs ps w o).1.nodes n).alive i = true := by
+  induction ps with
+  | nil => intro w _ h; exact h
+  | cons p ps ih =>
+    intro w hp h
+    simp only [inheritPairs]
+    apply ih _ (fun q hq => hp q (List.mem_cons_of_mem _ hq))
+    rw [restore_nodes_other _ _ _ _ _ (Ne.symm (hp p List.mem_cons_self))]; exact h
+
+theorem restoreGroups_alive_mono (o : Oracle) (n i : Nat) (gs : List ReloadGroup) : ∀ w : World,
+    (∀ G ∈ gs, ∀ p ∈ G.pairs, p.1 ≠ n) → (w.nodes n).alive i = true →
+    ((restoreGroups gs w o).1.nodes n).alive i = true := by
+  induction gs with
+  | nil => intro w _ h; exact h
+  | cons G gs ih =>
+    intro w hp h
+    simp only [restoreGroups]
+    exact ih _ (fun G' hG' => hp G' (List.mem_cons_of_mem _ hG'))
+      (inheritPairs_alive_mono o n i G.pairs w (hp G List.mem_cons_self) h)
+
+theorem floorGroups_alive_mono (o : Oracle) (n i : Nat) (gs : List ReloadGroup) : ∀ w : World,
+    (w.nodes n).alive i = true → ((floorGroups gs w o).1.nodes n).alive i = true := by
+  induction gs with
+  | nil => intro w h; exact h
+  | cons G gs ih =>
+    intro w h
+    simp only [floorGroups]
+    exact ih _ (floorFrom_alive_mono _ G.g G.fb o n i w h)
 
 /-- **Step form.** A slot that is alive before an event and not alive after it: the event is a forced
 report on it, a restore of the node, an escalation of the node in this very step, or a counted
@@ -2395,6 +2558,15 @@ theorem death_step (w : World) (e : Event) (n i : Nat) (ha : (w.nodes n).alive i
     · apply contra
       simp only [step, restore, restoreFrom_nodes, upd_other _ _ _ _ (Ne.symm hm)]; exact ha
   | floor g fb o => exact contra (floorFrom_alive_mono _ g fb o n i w ha)
+  | reload gs o =>
+    by_cases hex : ∃ G ∈ gs, ∃ p ∈ G.pairs, p.1 = n
+    · left; exact ForcedCause.reload gs o hex
+    · apply contra
+      simp only [step, reload]
+      apply floorGroups_alive_mono
+      apply restoreGroups_alive_mono _ _ _ _ _ _ ha
+      intro G hG p hp hpn
+      exact hex ⟨G, hG, p, hp, hpn⟩
 
 
 /-! ## reload: hand-over and selection floor -/
@@ -2552,6 +2724,118 @@ theorem floorFrom_props (g : Nat) (fb : Nat → Option Nat) (o : Oracle) (ts : L
     rcases List.mem_cons.mp ht' with rfl | ht'
     · exact q1 _ (p3 (hr _ List.mem_cons_self))
     · exact q2 t' ht'
+
+
+/-! ## the whole hand-over leaves every group selectable -/
+
+/-- a world step that only notifies: the found set of `(g, i)` is the notified found set -/
+theorem readyAt_notifyAll (sets : List ASet) (n c : Nat) (a : Bool) (o : Oracle) (g : Nat) (fb : Nat → Option Nat) (i : Nat)
+    (h : ∀ s, findSet sets g i = some s → s.active = true ∧ s.members ≠ [] ∧ ∀ c, fb i = some c → c ∈ s.members) :
+    ∀ s, findSet (notifyAll sets n c a o).1 g i = some s →
+      s.active = true ∧ s.members ≠ [] ∧ ∀ c, fb i = some c → c ∈ s.members := by
+  intro s hs
+  rw [findSet_notifyAll] at hs
+  cases hfi : findSet sets g i with
+  | none => rw [hfi] at hs; simp at hs
+  | some s1 =>
+    rw [hfi] at hs; simp only [Option.map_some, Option.some.injEq] at hs; subst hs
+    obtain ⟨_, _, _, _, _, hm, _, ha⟩ := notifyOne_static s1 n c a o
+    rw [ha, hm]; exact h s1 hfi
+
+theorem restoreFrom_ready (g : Nat) (fb : Nat → Option Nat) (i : Nat) (n : Nat) (s : Snapshot) (o : Oracle)
+    (is : List Nat) : ∀ w : World, ReadyAt w g fb i → ReadyAt (restoreFrom is w n s o).1 g fb i := by
+  induction is with
+  | nil => intro w h; exact h
+  | cons j js ih =>
+    intro w h
+    simp only [restoreFrom]
+    apply ih
+    exact readyAt_notifyAll w.sets n (canon j) (s.alive j) o g fb i h
+
+theorem inheritPairs_ready (g : Nat) (fb : Nat → Option Nat) (i : Nat) (o : Oracle) (ps : List (Nat × Nat)) :
+    ∀ w : World, ReadyAt w g fb i → ReadyAt (inheritPairs ps w o).1 g fb i := by
+  induction ps with
+  | nil => intro w h; exact h
+  | cons p ps ih => intro w h; exact ih _ (restoreFrom_ready g fb i p.1 _ o _ w h)
+
+theorem restoreGroups_ready (g : Nat) (fb : Nat → Option Nat) (i : Nat) (o : Oracle) (gs : List ReloadGroup) :
+    ∀ w : World, ReadyAt w g fb i → ReadyAt (restoreGroups gs w o).1 g fb i := by
+  induction gs with
+  | nil => intro w h; exact h
+  | cons G gs ih => intro w h; exact ih _ (inheritPairs_ready g fb i o G.pairs w h)
+
+/-- flooring one group never un-readies or empties the found set of any group -/
+theorem floorOne_other (w : World) (g : Nat) (fb : Nat → Option Nat) (o : Oracle) (t : Typ)
+    (hnd : SetsAll NodupSet w) (g' : Nat) (fb' : Nat → Option Nat) (i : Nat) :
+    (ReadyAt w g' fb' i → ReadyAt (floorOne w g fb o t).1 g' fb' i) ∧
+    (DoneAt w g' i → DoneAt (floorOne w g fb o t).1 g' i) := by
+  unfold floorOne
+  split
+  · exact ⟨fun h => h, fun h => h⟩
+  · split
+    · exact ⟨fun h => h, fun h => h⟩
+    · split
+      · exact ⟨fun h => h, fun h => h⟩
+      · rename_i c _
+        constructor
+        · intro h; exact readyAt_notifyAll w.sets c t.idx true o g' fb' i h
+        · intro hd s hs
+          have hmap := markAliveFallback_find w c t o g' i
+          rw [hmap] at hs
+          cases hfi : findSet w.sets g' i with
+          | none => rw [hfi] at hs; simp at hs
+          | some s1 =>
+            rw [hfi] at hs; simp only [Option.map_some, Option.some.injEq] at hs; subst hs
+            exact (notifyOne_alive_nonempty s1 c t.idx o (hnd s1 (findSet_mem _ _ _ _ hfi).1)).1 (hd s1 hfi)
+
+theorem floorFrom_other (g : Nat) (fb : Nat → Option Nat) (o : Oracle) (g' : Nat) (fb' : Nat → Option Nat) (i : Nat)
+    (ts : List Typ) : ∀ w : World, SetsAll NodupSet w →
+    (ReadyAt w g' fb' i → ReadyAt (floorFrom ts w g fb o).1 g' fb' i) ∧
+    (DoneAt w g' i → DoneAt (floorFrom ts w g fb o).1 g' i) := by
+  induction ts with
+  | nil => intro w _; exact ⟨fun h => h, fun h => h⟩
+  | cons t ts ih =>
+    intro w hnd
+    simp only [floorFrom]
+    obtain ⟨a, b⟩ := floorOne_other w g fb o t hnd g' fb' i
+    obtain ⟨c, d⟩ := ih _ (floorOne_pres NodupSet o (nodupSet_stable o) w g fb t hnd)
+    exact ⟨fun h => c (a h), fun h => d (b h)⟩
+
+theorem floorGroups_done_mono (o : Oracle) (g' : Nat) (i : Nat) (gs : List ReloadGroup) : ∀ w : World,
+    SetsAll NodupSet w → DoneAt w g' i → DoneAt (floorGroups gs w o).1 g' i := by
+  induction gs with
+  | nil => intro w _ h; exact h
+  | cons G gs ih =>
+    intro w hnd h
+    simp only [floorGroups]
+    exact ih _ (floorFrom_pres NodupSet o (nodupSet_stable o) _ w G.g G.fb hnd)
+      ((floorFrom_other G.g G.fb o g' (fun _ => none) i standardTyps w hnd).2 h)
+
+theorem floorGroups_done (o : Oracle) (gs : List ReloadGroup) : ∀ w : World, SetsAll NodupSet w →
+    ∀ G ∈ gs, (∀ t ∈ standardTyps, ReadyAt w G.g G.fb t.idx) →
+    ∀ t ∈ standardTyps, DoneAt (floorGroups gs w o).1 G.g t.idx := by
+  induction gs with
+  | nil => intro w _ G hG; simp at hG
+  | cons G0 gs ih =>
+    intro w hnd G hG hr t ht
+    simp only [floorGroups]
+    have hnd1 := floorFrom_pres NodupSet o (nodupSet_stable o) standardTyps w G0.g G0.fb hnd
+    rcases List.mem_cons.mp hG with rfl | hG
+    · exact floorGroups_done_mono o _ _ gs _ hnd1 ((floorFrom_props G.g G.fb o standardTyps w hnd hr).2 t ht)
+    · apply ih _ hnd1 G hG _ t ht
+      intro t' ht'
+      exact (floorFrom_other G0.g G0.fb o G.g G.fb t'.idx standardTyps w hnd).1 (hr t' ht')
+
+/-- After the whole hand-over (all restores, then all floors) every group of the list whose sets are
+registered, have members and whose fallback candidates are members has all six found sets non-empty. -/
+theorem reload_all_done (w : World) (gs : List ReloadGroup) (o : Oracle) (hnd : SetsAll NodupSet w) :
+    ∀ G ∈ gs, (∀ t ∈ standardTyps, ReadyAt w G.g G.fb t.idx) →
+    ∀ t ∈ standardTyps, DoneAt (reload w gs o).1 G.g t.idx := by
+  intro G hG hr
+  simp only [reload]
+  apply floorGroups_done o gs _ (restoreGroups_pres NodupSet o (nodupSet_stable o) gs w hnd) G hG
+  intro t ht
+  exact restoreGroups_ready G.g G.fb t.idx o gs w (hr t ht)
 
 
 /-! ## escalation and misc single-step facts -/
@@ -2778,6 +3062,24 @@ theorem floorFrom_failures (ts : List Typ) (g : Nat) (fb : Nat → Option Nat) (
       · rfl
       · split <;> rfl
 
+theorem reload_failures (w : World) (gs : List ReloadGroup) (o : Oracle) : (reload w gs o).1.failures = w.failures := by
+  have h1 : ∀ (ps : List (Nat × Nat)) (w : World), (inheritPairs ps w o).1.failures = w.failures := by
+    intro ps
+    induction ps with
+    | nil => intro w; rfl
+    | cons p ps ih => intro w; simp only [inheritPairs]; rw [ih]; exact restoreFrom_failures _ _ _ _ _
+  have h2 : ∀ (gs : List ReloadGroup) (w : World), (restoreGroups gs w o).1.failures = w.failures := by
+    intro gs
+    induction gs with
+    | nil => intro w; rfl
+    | cons G gs ih => intro w; simp only [restoreGroups]; rw [ih, h1]
+  have h3 : ∀ (gs : List ReloadGroup) (w : World), (floorGroups gs w o).1.failures = w.failures := by
+    intro gs
+    induction gs with
+    | nil => intro w; rfl
+    | cons G gs ih => intro w; simp only [floorGroups]; rw [ih, floorFrom_failures]
+  simp only [reload]; rw [h3, h2]
+
 /-- the counted failure `(m, t, traffic)` executed in `w` is a death transition of that slot -/
 def diesBy (w : World) (m : Nat) (t : Typ) (tr : Bool) : Bool :=
   !w.suppressed && (w.nodes m).alive t.idx && !((w.nodes m).counted t tr).alive t.idx
@@ -2934,6 +3236,8 @@ theorem addrInv_step (a : Nat) (ha : a ≠ 0) (w : World) (e : Event) (acc : Nat
     simp only [step, touchAddr, Touch.next, AddrInv, FailWF, restore, restoreFrom_failures]; exact h
   | floor g fb o =>
     simp only [step, touchAddr, Touch.next, AddrInv, FailWF, floorFrom_failures]; exact h
+  | reload gs o =>
+    simp only [step, touchAddr, Touch.next, AddrInv, FailWF, reload_failures]; exact h
 
 theorem addrInv_run (a : Nat) (ha : a ≠ 0) (es : List Event) : ∀ (w : World) (acc : Nat), AddrInv a w acc →
     AddrInv a (run w es).1 (specAddr a w es acc) := by
@@ -3041,6 +3345,24 @@ theorem newSets_noEsc (w : World) (g ob : Nat) (p : Policy) (tol : Int) (ms : Li
     obtain ⟨b, _, rfl⟩ := hx
     intro _ h; cases h
 
+theorem reload_noEsc (w : World) (gs : List ReloadGroup) (o : Oracle) : NoEsc (reload w gs o).2 := by
+  have h1 : ∀ (ps : List (Nat × Nat)) (w : World), NoEsc (inheritPairs ps w o).2 := by
+    intro ps
+    induction ps with
+    | nil => intro w; exact noEsc_nil
+    | cons p ps ih => intro w; exact noEsc_append (restoreFrom_noEsc _ _ _ _ _) (ih _)
+  have h2 : ∀ (gs : List ReloadGroup) (w : World), NoEsc (restoreGroups gs w o).2 := by
+    intro gs
+    induction gs with
+    | nil => intro w; exact noEsc_nil
+    | cons G gs ih => intro w; exact noEsc_append (h1 _ _) (ih _)
+  have h3 : ∀ (gs : List ReloadGroup) (w : World), NoEsc (floorGroups gs w o).2 := by
+    intro gs
+    induction gs with
+    | nil => intro w; exact noEsc_nil
+    | cons G gs ih => intro w; exact noEsc_append (floorFrom_noEsc _ _ _ _ _) (ih _)
+  exact noEsc_append (h2 _ _) (h3 _ _)
+
 /-- `Out.escalate n` is produced only by a counted, non-suppressed failure on node `n` for which
 `recordProxyFailure` reported the threshold -/
 theorem markUnavail_esc (w : World) (m : Nat) (t : Typ) (tr : Bool) (o : Oracle) (n : Nat)
@@ -3133,6 +3455,7 @@ theorem step_esc (w : World) (e : Event) (n : Nat) (h : Out.escalate n ∈ (step
   | inherit m k o => exact absurd rfl (restoreFrom_noEsc _ _ _ _ _ _ h n)
   | restore m s o => exact absurd rfl (restoreFrom_noEsc _ _ _ _ _ _ h n)
   | floor g fb o => exact absurd rfl (floorFrom_noEsc _ _ _ _ _ _ h n)
+  | reload gs o => exact absurd rfl (reload_noEsc _ _ _ _ h n)
 
 theorem touchAddr_of_counted (w : World) (n : Nat) (t : Typ) (tr : Bool) (e : Event) (hc : CountedFailureOn n t tr e)
     (hd : diesBy w n t tr = true) : touchAddr (w.nodes n).addr w e = .fail := by
